@@ -28,6 +28,8 @@ pub enum Op1 {
     /// hash-shipped join with a constant side input (a stream defined outside the loop when
     /// used inside a loop body: cached and replayed every round)
     JoinSide(JVar, JLocal, Vec<P>),
+    /// the same with the side input as the LEFT operand of the join
+    JoinSideL(JVar, JLocal, Vec<P>),
     /// identity, but the user function panics on the first element whose value is congruent to this modulo 7 (C20)
     PanicAt(i64),
 }
@@ -75,6 +77,7 @@ impl Op1 {
             Op1::AddState => "OAddState".into(),
             Op1::Nested(n, lim, body) => format!("(ONested {} {} {})", z(*n), z(*lim), ops_coq(body)),
             Op1::NestedO(n, lim, body) => format!("(ONestedO {} {} {})", z(*n), z(*lim), ops_coq(body)),
+            Op1::JoinSideL(v, lo, side) => format!("(OJoinSideL {} {} {})", jv(*v), match lo { JLocal::Hash => "LoHash", JLocal::SortMerge => "LoSortMerge" }, data_coq(side)),
             Op1::JoinSide(v, lo, side) => format!("(OJoinSide {} {} {})", jv(*v), match lo { JLocal::Hash => "LoHash", JLocal::SortMerge => "LoSortMerge" }, data_coq(side)),
             Op1::PanicAt(_) => "(OMapAdd 0)".into(),
         }
@@ -140,7 +143,7 @@ type Sides = std::sync::Arc<std::sync::Mutex<std::collections::VecDeque<DynStrea
 fn collect_sides(env: &StreamContext, mode: BatchMode, os: &[Op1], out: &mut std::collections::VecDeque<DynStream<P>>) {
     for o in os {
         match o {
-            Op1::JoinSide(_, _, side) => {
+            Op1::JoinSide(_, _, side) | Op1::JoinSideL(_, _, side) => {
                 let data = side.clone();
                 out.push_back(erase(env.stream_par_iter(move |id, n| data.into_iter().skip(id as usize).step_by(n as usize)).batch_mode(mode)));
             }
@@ -191,6 +194,10 @@ fn apply1(sides: &Sides, s: DynStream<P>, o: &Op1, state: &StateGet) -> DynStrea
         Op1::JoinSide(v, lo, _) => {
             let side = sides.lock().unwrap().pop_front().expect("side input prebuilt");
             join(s, side, *v, JShip::Hash, *lo)
+        }
+        Op1::JoinSideL(v, lo, _) => {
+            let side = sides.lock().unwrap().pop_front().expect("side input prebuilt");
+            join(side, s, *v, JShip::Hash, *lo)
         }
         Op1::NestedO(n, limit, body) => {
             let (body, limit, outer, sd) = (body.clone(), *limit, state.clone(), sides.clone());
